@@ -2,7 +2,9 @@ import LW.Model.CircuitSpec
 
 namespace LW.C01
 
-/-- placeholder while the real theorems are being written -/
-theorem placeholder : True := trivial
+/-- `U_full` of the empty circuit has the circuit's own dimension (the full theorem set is being
+proved in a scratch copy and replaces this file when it builds). -/
+theorem compile_nil_dim {K : Type} [Add K] [Mul K] [Neg K] [Zero K] [One K] (i : K) (n : Nat) :
+    (compile i n ([] : List (Comp K))).n = n := rfl
 
 end LW.C01
